@@ -322,8 +322,11 @@ def simplify(scn):
         c["lines"] = cand
         ops = []
         for op in scn["ops"]:
-            perm = [p if p < i else p - 1 for p in op["perm"] if p != i]
-            ops.append(dict(op, perm=perm))
+            if "perm" in op:
+                perm = [p if p < i else p - 1 for p in op["perm"] if p != i]
+                ops.append(dict(op, perm=perm))
+            else:
+                ops.append(op)
         c["ops"] = ops
         yield c
     for i, ln in enumerate(lines):
